@@ -114,6 +114,27 @@ def untag(x, ts=64):
     return x // ts, (x % ts) // 8, x % 8
 
 
+INT_TYPES = ("int", "i64", "i32", "arr0d_i", "bool")
+FLOAT_TYPES = ("pyfloat", "f32", "f64", "arr0d_f")
+
+
+def cast_step(x, ty, vec):
+    """one per-step entry (array over envs, or a scalar on a plain env) in the Python / numpy type `ty`.  A narrow type
+    is used only if it holds the value exactly (the harness must not truncate anything itself)."""
+    arr = np.asarray(x, dtype=np.float64)
+    integral = bool(np.all(arr == np.round(arr)))
+    if ty in INT_TYPES and (not integral or (ty == "bool" and not np.all((arr == 0) | (arr == 1)))):
+        ty = "f32"
+    if vec:
+        dt = {"int": np.int64, "i64": np.int64, "i32": np.int32, "arr0d_i": np.int64, "bool": np.bool_,
+              "pyfloat": np.float64, "f64": np.float64, "f32": np.float32, "arr0d_f": np.float32}[ty]
+        return arr.astype(dt)
+    v = float(arr.reshape(-1)[0])
+    return {"int": lambda: int(v), "i64": lambda: np.int64(v), "i32": lambda: np.int32(v), "arr0d_i": lambda: np.array(int(v)),
+            "bool": lambda: bool(v), "pyfloat": lambda: v, "f64": lambda: np.float64(v), "f32": lambda: np.float32(v),
+            "arr0d_f": lambda: np.array(v, dtype=np.float32)}[ty]()
+
+
 def id_groups(ids):
     """agent id -> (group index, position inside the group); groups (homogeneous ids = id without its last _suffix, as
     get_homo_id does) are numbered by first appearance in agent_ids, members by their order in agent_ids"""
@@ -328,6 +349,32 @@ class C17(vlib.Driver):
             c["variant"] = "torch"
         return c
 
+    def with_mixed_types(self, rng, c):
+        """per-step entries of rewards / dones / values get different Python / numpy types; the first entry has the
+        narrower (integer) type and a later one is fractional, so a stacking that keeps the first dtype truncates"""
+        T = c["T"]
+        if T < 2:
+            return c
+        for g in c["groups"]:
+            for a in range(g["A"]):
+                for e in range(c["E"]):
+                    g["R"][a][0][e] = float(rng.randint(-3, 3))                      # integral, held by an int type
+                    g["R"][a][1][e] = rng.randint(-15, 15) / 4.0 + rng.choice([0.25, 0.5, 0.75])   # fractional
+        narrow_v = rng.random() < 0.3
+        if narrow_v:
+            for g in c["groups"]:
+                for a in range(g["A"]):
+                    for e in range(c["E"]):
+                        g["V"][a][0][e] = float(rng.randint(-3, 3))
+                        g["V"][a][T - 1][e] = rng.randint(-15, 15) / 4.0 + 0.5
+        fl = lambda: rng.choice(["pyfloat", "f32", "f64", "arr0d_f"])
+        c["types"] = {"R": [rng.choice(["int", "i64", "i32", "arr0d_i"])] + [rng.choice([fl(), fl(), "int"]) for _ in range(T - 1)],
+                      "D": [rng.choice(["bool", "int", "i64", "f32"])] + [rng.choice([fl(), "bool", "int"]) for _ in range(T - 1)],
+                      "V": [rng.choice(["int", "i64"]) if narrow_v else rng.choice(["f32", "f64"])] + [fl() for _ in range(T - 1)]}
+        c["types"]["R"][1] = fl()
+        c.pop("variant", None)
+        return c
+
     def with_epochs(self, rng, c):
         """run the real epoch / minibatch loop on this case: scripted shuffles, batch_size mostly not dividing the rows"""
         if c["act"] in ("discrete", "multidisc"):          # the body re-evaluates the stored actions: tags are not valid categories
@@ -359,10 +406,14 @@ class C17(vlib.Driver):
             cases.append(self.mk_case(rng, "ppo", T, E, [self.rand_group(rng, T, 1, E, True)]))
             if (T + E) % 2:
                 self.with_epochs(rng, cases[-1])
+            elif T >= 2:
+                self.with_mixed_types(rng, cases[-1])
         for T, A, E in itertools.product(range(1, 4), range(1, 4), range(1, 4)):
             cases.append(self.mk_case(rng, "ippo", T, E, [self.rand_group(rng, T, A, E, True)]))
             if (T + A + E) % 2:
                 self.with_epochs(rng, cases[-1])
+            elif T >= 2 and E == 2:
+                self.with_mixed_types(rng, cases[-1])
         # (b2) many agents sharing one policy: "agent_10" sorts before "agent_2"
         for A in ([11] if quick else [11, 12, 13]):
             for T in (1, 2):
@@ -383,6 +434,8 @@ class C17(vlib.Driver):
                                       share=rng.random() < 0.3))
             if rng.random() < 0.35:
                 self.with_epochs(rng, cases[-1])
+            if rng.random() < 0.25:
+                self.with_mixed_types(rng, cases[-1])
         for _ in range(n_ippo):
             T = rng.choice([1, 2, 2, 3, 3, 4, 5, 6]); exact = rng.random() < 0.6
             if not exact:
@@ -397,6 +450,8 @@ class C17(vlib.Driver):
                                       act=rng.choice(["box2", "box1", "discrete", "multidisc"]), net=rng.choice(["plain", "partial"])))
             if rng.random() < 0.35:
                 self.with_epochs(rng, cases[-1])
+            if rng.random() < 0.25:
+                self.with_mixed_types(rng, cases[-1])
         # (d) the training loops with scripted episode ends: which flags reach learn()
         for _ in range(24 if quick else 200):
             ma = rng.random() < 0.5
@@ -479,6 +534,10 @@ class C17(vlib.Driver):
                 rw = [float(x) for x in rw]
                 if case["algo"] == "ppo":
                     dn = [float(x) for x in dn]
+            if case.get("types"):           # per-step Python / numpy types differ inside one list (np.stack promotes them)
+                rw = [cast_step(x, ty, vec) for x, ty in zip(rw, case["types"]["R"])]
+                dn = [cast_step(x, ty, vec) for x, ty in zip(dn, case["types"]["D"])]
+                vl = [cast_step(x, ty, vec) for x, ty in zip(vl, case["types"]["V"])]
             if case.get("variant") == "torch" and case["algo"] == "ppo":   # stack_experiences' torch.Tensor branch
                 lp = [torch.as_tensor(np.asarray(x)) for x in lp]
                 vl = [torch.as_tensor(np.asarray(x)) for x in vl]
@@ -981,6 +1040,9 @@ class C17(vlib.Driver):
                 labs.append("minibatch-body-observed")
         if case.get("variant"):
             labs.append(f"variant={case['variant']}")
+        if case.get("types"):
+            ty = case["types"]
+            labs += ["mixed-step-types", f"first-reward-type={ty['R'][0]}", f"first-done-type={ty['D'][0]}", f"first-value-type={ty['V'][0]}"]
         if obs["error"] is not None:
             labs.append("learn-raised")
         if A >= 2 and case["T"] >= 2:
